@@ -104,8 +104,13 @@ def rest_consumption(W, qname, args, kwargs=None, state=None, exempt=(), watch=(
             return "inline"
         if f.module == "curves" and f.qual == "find_curve":
             return "inline"
+        # private helpers of the entry function's own module (guards such as "raise unless the
+        # remainder is empty", parsing steps moved out of the loader) are analysed in depth too
+        if f.module == qname.split(":")[0] and f.node.name.startswith("_") and not f.node.name.startswith("__") and not f.node.name.startswith(("_from_", "_truncate")):
+            return "inline"
         return "summary"
     it = W.interp(policy=policy)
+    it.flat_callees = {f.qname for f in W.p.all_funcs() if f.qname != qname and f.module == qname.split(":")[0] and policy(f) == "inline"}
     it.entry_merge_limit = None
     it.partition_cap = 400
     readers = der_readers(W.p)
@@ -119,16 +124,25 @@ def rest_consumption(W, qname, args, kwargs=None, state=None, exempt=(), watch=(
     recs = []
     for r in readers:
         for caller, site, cargs, ckw, st, res in it.watch_results[r]:
-            if caller == qname:
+            if caller.split(":")[0] not in ("der", "_compat"):
                 recs.append((r, site, cargs, res))
     consumed_terms = set()
     for r, site, cargs, res in recs:
         if cargs and isinstance(cargs[0], VBytes):
             consumed_terms.add(cargs[0].t)
     out = {}
+    # the reader whose remainder a call continues from (its previous sibling in the TLV sequence)
+    rest_of = {}
+    for r, site, cargs, res in recs:
+        for v, s in res:
+            rest = v.items[-1] if isinstance(v, VTuple) and v.items else None
+            if isinstance(rest, VBytes):
+                rest_of.setdefault(rest.t, set()).add(r.split(":")[1])
     for r, site, cargs, res in recs:
         key = (site[1], site[2])
-        ent = out.setdefault(key, {"site": site, "reader": r, "ok": True, "why": "", "n": 0, "exempt": site[2] in exempt})
+        prev = sorted(rest_of.get(cargs[0].t, ())) if cargs and isinstance(cargs[0], VBytes) else []
+        ent = out.setdefault(key, {"site": site, "reader": r, "ok": True, "why": "", "n": 0, "exempt": site[2] in exempt, "prev": set()})
+        ent["prev"] |= set(prev)
         for v, s in res:
             rest = v.items[-1] if isinstance(v, VTuple) and v.items else None
             if not isinstance(rest, VBytes):
@@ -216,3 +230,136 @@ def _strip_ctx(n):
         if hasattr(x, "ctx"):
             x.ctx = _ast.Load()
     return n
+
+
+class Unevaluable(Exception):
+    pass
+
+
+def ev_small(node, env):
+    """restricted evaluator over small concrete domains (digits, residues, short lists of
+    symbols): names, constants, list displays, + - * // % >> << unary -, not, and/or,
+    comparisons, len(), int(), subscripts and slices with constant bounds.  It is applied only
+    to guards and index arithmetic of the analysed code, never to the library's arithmetic on
+    points or keys.  Anything else raises Unevaluable."""
+    import ast as _ast
+    if isinstance(node, _ast.Constant):
+        return node.value
+    if isinstance(node, _ast.Name):
+        if node.id in env:
+            return env[node.id]
+        raise Unevaluable(node.id)
+    if isinstance(node, _ast.List):
+        return [ev_small(e, env) for e in node.elts]
+    if isinstance(node, _ast.Tuple):
+        return tuple(ev_small(e, env) for e in node.elts)
+    if isinstance(node, _ast.BinOp):
+        a, b = ev_small(node.left, env), ev_small(node.right, env)
+        op = type(node.op)
+        try:
+            if op is _ast.Mod:
+                return a % b
+            if op is _ast.Add:
+                return a + b
+            if op is _ast.Sub:
+                return a - b
+            if op is _ast.Mult:
+                return a * b
+            if op is _ast.FloorDiv:
+                return a // b
+            if op is _ast.RShift:
+                return a >> b
+            if op is _ast.LShift:
+                return a << b
+            if op is _ast.BitAnd:
+                return a & b
+        except Exception as e:
+            raise Unevaluable(str(e))
+        raise Unevaluable("operator")
+    if isinstance(node, _ast.UnaryOp):
+        v = ev_small(node.operand, env)
+        if isinstance(node.op, _ast.Not):
+            return not v
+        if isinstance(node.op, _ast.USub):
+            return -v
+        raise Unevaluable("unary")
+    if isinstance(node, _ast.BoolOp):
+        if isinstance(node.op, _ast.And):
+            r = True
+            for v in node.values:
+                r = ev_small(v, env)
+                if not r:
+                    return r
+            return r
+        r = False
+        for v in node.values:
+            r = ev_small(v, env)
+            if r:
+                return r
+        return r
+    if isinstance(node, _ast.Compare):
+        left = ev_small(node.left, env)
+        for op, c in zip(node.ops, node.comparators):
+            right = ev_small(c, env)
+            ok = {_ast.Eq: lambda: left == right, _ast.NotEq: lambda: left != right, _ast.Lt: lambda: left < right, _ast.LtE: lambda: left <= right,
+                  _ast.Gt: lambda: left > right, _ast.GtE: lambda: left >= right, _ast.In: lambda: left in right, _ast.NotIn: lambda: left not in right}.get(type(op))
+            if ok is None:
+                raise Unevaluable("comparison")
+            if not ok():
+                return False
+            left = right
+        return True
+    if isinstance(node, _ast.Call) and isinstance(node.func, _ast.Name) and node.func.id in ("len", "int", "abs", "list", "reversed") and len(node.args) == 1 and not node.keywords:
+        v = ev_small(node.args[0], env)
+        if node.func.id == "reversed":
+            return list(reversed(v))
+        return {"len": len, "int": int, "abs": abs, "list": list}[node.func.id](v)
+    if isinstance(node, _ast.Subscript):
+        v = ev_small(node.value, env)
+        if isinstance(node.slice, _ast.Slice):
+            lo = ev_small(node.slice.lower, env) if node.slice.lower else None
+            hi = ev_small(node.slice.upper, env) if node.slice.upper else None
+            st = ev_small(node.slice.step, env) if node.slice.step else None
+            return v[lo:hi:st]
+        return v[ev_small(node.slice, env)]
+    if isinstance(node, _ast.IfExp):
+        return ev_small(node.body, env) if ev_small(node.test, env) else ev_small(node.orelse, env)
+    raise Unevaluable(type(node).__name__)
+
+
+def executed(stmts, env, on_assign=None):
+    """the simple statements of `stmts` that execute for the concrete guard values in env
+    (if / elif / else chains evaluated with ev_small; assert and pass skipped).  Returns
+    (statements, how) with how in 'fall', 'continue', 'break', 'return'.  Assignments to names
+    of env whose value is evaluable update env (so that `k //= 2`-style updates are followed)."""
+    import ast as _ast
+    out = []
+    for s in stmts:
+        if isinstance(s, _ast.If):
+            branch = s.body if ev_small(s.test, env) else s.orelse
+            sub, how = executed(branch, env, on_assign)
+            out.extend(sub)
+            if how != "fall":
+                return out, how
+        elif isinstance(s, (_ast.Assert, _ast.Pass)) or (isinstance(s, _ast.Expr) and isinstance(s.value, _ast.Constant)):
+            continue
+        elif isinstance(s, _ast.Continue):
+            return out, "continue"
+        elif isinstance(s, _ast.Break):
+            return out, "break"
+        elif isinstance(s, (_ast.Return, _ast.Raise)):
+            out.append(s)
+            return out, "return"
+        else:
+            out.append(s)
+            u = as_update(s) if isinstance(s, (_ast.AugAssign, _ast.Assign)) else None
+            tgt = s.targets[0] if isinstance(s, _ast.Assign) and len(s.targets) == 1 else s.target if isinstance(s, _ast.AugAssign) else None
+            if isinstance(tgt, _ast.Name):
+                try:
+                    if isinstance(s, _ast.AugAssign):
+                        env[tgt.id] = ev_small(_ast.BinOp(_ast.Name(tgt.id, _ast.Load()), s.op, s.value), env)
+                    else:
+                        env[tgt.id] = ev_small(s.value, env)
+                except Unevaluable:
+                    env.pop(tgt.id, None)
+    return out, "fall"
